@@ -3,8 +3,8 @@ import os, subprocess, time, re
 from concurrent.futures import ThreadPoolExecutor
 from vp import build, core
 
-OPS = "iskbfhcmdx"
-NAMES = dict(i="init", s="convert(small)", k="convert(kitchen sink: headings, definitions, table, notes)", b="convert(1500 tokens, two slabs)", f="fill the slab exactly", h="parse and hold a tree",
+OPS = "iskebfhcmdx"
+NAMES = dict(i="init", e="convert to EPUB with stored assets (images, style sheet)", s="convert(small)", k="convert(kitchen sink: headings, definitions, table, notes)", b="convert(1500 tokens, two slabs)", f="fill the slab exactly", h="parse and hold a tree",
              c="inspect held tree", m="metadata queries on the held engine", d="drain", x="free")
 
 def exe():
@@ -24,7 +24,7 @@ def legal(hist):
     out = []
     for o in OPS:
         if o == "i": out.append(o)
-        elif o in "skbf" and count > 0: out.append(o)
+        elif o in "skebf" and count > 0: out.append(o)
         elif o == "h" and count > 0 and not held: out.append(o)
         elif o in "cm" and held: out.append(o)
         elif o == "d" and count > 0: out.append(o)
@@ -41,7 +41,7 @@ def run_batch(x, hists):
 
 def run(tier):
     rep = core.Report("C18", tier, "model_checking")
-    rep.rule = ("breadth-first search over well-bracketed histories of {init, convert small, convert 1500 tokens (two slabs), fill slab exactly, hold tree, inspect, drain, free}; "
+    rep.rule = ("breadth-first search over well-bracketed histories of {init, convert small, convert to EPUB with stored assets, convert 1500 tokens (two slabs), fill slab exactly, hold tree, inspect, drain, free}; "
                 "each history is executed from a fresh process on the real pool under ASan; state key = (use count, pool exists, slab count, room left in the current slab, tree held) read from "
                 "the pool's own statics; only new keys are expanded (equal keys have equal futures: nothing else survives in the pool); invariants on every transition")
     rep.assumptions = ["histories are well-bracketed by construction (the protocol's precondition)"]
